@@ -138,6 +138,18 @@ def gen_pair(rng, idx, quick):
         cut = rng.randint(15, n - 15)
         if rng.random() < 0.6:          # on a boundary of the largest timeframe: the window that just closed is read
             cut = max(L, cut - cut % L)
+    # minutes without trades: flat zero-volume candles (repeating the previous close) followed by a gap, plus some zero-volume
+    # candles of ordinary shape; a share of the cuts falls right after such an empty minute (the first replaced candle is
+    # the one that opens with the gap, and the tail always differs from it in its open)
+    flats = sorted(set(rng.randrange(2, n - 2) for _ in range(max(2, n // 25))))
+    if mode == 'fast':
+        flats = sorted(set(flats + [tt * rng.randint(1, max(1, (n - 2) // tt)) - 1 for _ in range(3)]))
+        flats = [i for i in flats if 2 <= i < n - 2]
+    zerovol = [rng.randrange(0, n) for _ in range(max(1, n // 40))]
+    if idx % 5 in (1, 2):
+        cand = [i + 1 for i in flats if 10 <= i + 1 <= n - 10 and (mode != 'fast' or (i + 1) % tt == 0)]
+        if cand:
+            cut = rng.choice(cand)
     seed = rng.randrange(1, 10 ** 6)
     pol = {'seed': seed, 'entry_every': rng.choice([3, 4, 5, 7]), 'long_phase': 1, 'short_phase': rng.choice([2, 3]),
            'exits_in': rng.choice(['go', 'on_open', 'mixed']), 'p_cancel': rng.choice([0.0, 0.3, 1.0]),
@@ -145,6 +157,7 @@ def gen_pair(rng, idx, quick):
            'max_entry_rows': rng.choice([1, 2]), 'max_exit_rows': rng.choice([1, 2]),
            'sl_dist': (2, 6), 'tp_dist': (2, 6), 'spot': typ == 'spot'}
     base = dict(mode=mode, typ=typ, nsym=nsym, ttf=ttf, dtfs=dtfs, dsym=dsym, warm=warm, n=n, seed=seed, policy=pol,
+                flats=flats, zerovol=zerovol,
                 fee=rng.choice([0.0, 1 / 1024, 0.0006]), lev=rng.choice([1, 2, 5]),
                 levmode=rng.choice(['cross', 'cross', 'isolated']), cut=cut, tail_seed=rng.randrange(1, 10 ** 6),
                 walk=dict(step=rng.choice([1, 2, 3]), wick=rng.choice([1, 2, 3]), gap_p=rng.choice([0.0, 0.1, 0.3])))
